@@ -73,3 +73,14 @@ package influx
 //@ func GetOriginMstName
 //@   trusted_ensures result == origin(nameWithVer)
 //@   trusted_assigns nothing
+
+// The timestamp of a line is written in the precision of the request and stored in nanoseconds: the stored
+// value is exactly written x multiplier, and a value that does not fit int64 is rejected (never wrapped).
+//@ func scaleTimestamp
+//@   requires multiplier >= 1
+//@   ensures [exact] result1 == nil ==> result0 == ts * multiplier && ts * multiplier <= 9223372036854775807 && ts * multiplier >= -9223372036854775808
+//@   ensures [rejects] (ts * multiplier > 9223372036854775807 || ts * multiplier < -9223372036854775808) ==> result1 != nil
+//@   assigns nothing
+//@ func (*unmarshalWork).Unmarshal
+//@   call scaleTimestamp
+//@     requires [precision] arg1 >= 1 && arg1 == tsMultiplier && arg0 == row.Timestamp
